@@ -387,7 +387,7 @@ def check_c12(tier, t0):
         "traces_validated_against_impl": 0,
         "evaluations": s["evaluated"] + 5 * s["diagonal_walks"],
         "distinct_nontrivial": s["evaluated"] - 30,
-        "rule": "all 1000 announced codes x 6 entry points (typed: x 30 requested types, each with a body of the announced and of the "
+        "rule": "all 1000 announced codes x 7 entry points (typed and its error-collecting twin parse_with_errors: x 30 requested types, each with a body of the announced and of the "
                 "requested type); plus every unmutated layout walk (<= K optional items / all items, every option) along the diagonal "
                 "through auto, wrapper, parse_mt, validate_mt, publish_mt compared with the typed API; non-trivial = every case "
                 "except the 30 typed diagonal entries",
@@ -617,7 +617,7 @@ def check_c05(tier, t0):
                 "each content is computed by the generic matcher InLanguage; non-trivial = every content but the typical one",
         "samples": s["samples"] or [{}],
         "fields_covered": s["fields"],
-        "fields_not_covered": ["23", "23B", "25P", "28D", "50F", "52B-57B", "61", "77T",
+        "fields_not_covered": ["23 (documented format and documented function codes do not fit together)", "77T (9000z)",
                                "option enums (C14)"],
         "multi_deviation_cases_subsumed": s.get("subsumed_multi_deviation", 0),
         "panics_noted_for_C07": s["panics_noted_for_C07"],
@@ -669,8 +669,9 @@ def check_c04(tier, t0):
                 "non-trivial = the vector violates at least one documented rule",
         "samples": s["samples"] or [{}],
         "types_covered": sorted(s["per_type"].keys()),
-        "types_not_covered": ["104 (rules documented by name only: not transcribed)",
-                              "196", "296", "200 (T80 guideline rule)", "292 (parser refuses the only violating shape)"],
+        "types_not_covered": [t for t in ["111", "112", "190", "191", "196", "199", "290", "291", "296", "299", "900"]
+                              if t not in s["per_type"]],
+        "types_without_network_rules_in_the_library": ["111", "112", "190", "191", "199", "290", "291", "299", "900"],
         "codes_reported": s["codes_reported"],
         "refused_by_parser": s["rejected_by_parser"],
         "exhaustive": True, "exhaustive_scope": "the cones of Rules.tla",
@@ -825,6 +826,8 @@ def check_c07(tier, t0):
     traces = os.path.join(wd, "traces.ndjson")
     out = os.path.join(wd, "out.json")
     args = ["total", "--walks", walks, "--fields", cases, "--traces", traces, "--out", out]
+    rule_texts, nrules, mcr, _ = gen_rule_messages(wd)
+    args += ["--rule-texts", rule_texts]
     if tier == "thorough":
         args.append("--thorough")
     run_harness(args, timeout=5400)
